@@ -33,7 +33,22 @@ var c03Features = []featureCfg{
 	{Breaker: true, Limiter: true, Active: true, Passive: true},
 }
 
-const c03Bound = 7 * time.Second // max(server read/write 5 s, backend read 2 s, dial 1 s) + 1 s and some slack for the 3 s drip
+// c03Bound is the latest end of a request of the given kind under faultConfig's timeouts (backend dial 1 s, backend
+// read 2 s, backend idle 9 s, server read 5 s, server write 6 s), with one second of slack: the timeout that is meant
+// to end the request decides, not the largest one configured.
+func c03Bound(kind string) time.Duration {
+	switch kind {
+	case "hang":
+		return 3 * time.Second // backend_read
+	case "stall":
+		return 7 * time.Second // server write timeout
+	case "slow":
+		return 4 * time.Second // the 3 s drip itself
+	case "refuse":
+		return 2 * time.Second // backend_dial
+	}
+	return time.Second // answered or cut at once: reset, short, garb, f5, ok
+}
 
 func goroutinesSettled() (int, map[string]int) {
 	min := 1 << 30
@@ -80,7 +95,7 @@ func c03Run(e *vh.Env, c c03Case, o *vh.Out) {
 			for k := 0; k < 8; k++ {
 				r := doFault(sys, "f5", nil)
 				o.Obs("fault_requests", 1)
-				if r.Dur > c03Bound {
+				if r.Dur > c03Bound("f5") {
 					o.Viol("C03|request-too-long|storm", fmt.Sprintf("%s: request %d of the 5xx storm ended only after %v", ctx, k+1, r.Dur), r)
 					return false
 				}
@@ -95,8 +110,8 @@ func c03Run(e *vh.Env, c c03Case, o *vh.Out) {
 		r := doFault(sys, kind, nil)
 		o.Obs("fault_requests", 1)
 		o.Obs("fault_"+kind, 1)
-		if kind != "cup" && kind != "cdown" && r.Dur > c03Bound {
-			o.Viol("C03|request-too-long|"+kind, fmt.Sprintf("%s: the %s request ended only after %v (configured timeouts: backend read 2 s, server read/write 5 s)", ctx, kind, r.Dur), r)
+		if kind != "cup" && kind != "cdown" && r.Dur > c03Bound(kind) {
+			o.Viol("C03|request-too-long|"+kind, fmt.Sprintf("%s: the %s request ended only after %v, the bound for this kind is %v (configured timeouts: backend dial 1 s, backend read 2 s, backend idle 9 s, server read 5 s, server write 6 s)", ctx, kind, r.Dur, c03Bound(kind)), r)
 			return false
 		}
 		if r.Status == 0 && r.Err == "" {
